@@ -276,6 +276,62 @@ fn date_on_year(
     }
 }
 
+/// A date range which starts with an explicit year describes a single
+/// interval (eg. "2021 Mar 28-Apr 16"), this returns its inclusive bounds. The
+/// interval is empty if the end comes before the start.
+fn interval_from_dated_start(
+    start: &(ds::Date, ds::DateOffset),
+    end: &(ds::Date, ds::DateOffset),
+) -> Option<(NaiveDate, NaiveDate)> {
+    let (
+        ds::Date::Fixed {
+            year: Some(start_year),
+            month: start_month,
+            day: start_day,
+        },
+        start_offset,
+    ) = start
+    else {
+        return None;
+    };
+
+    let (ds::Date::Fixed { year: end_year, month: end_month, day: end_day }, end_offset) = end
+    else {
+        return None;
+    };
+
+    let start_year = i32::from(*start_year);
+
+    let start_date = start_offset.apply(valid_ymd_after(
+        start_year,
+        (*start_month).into(),
+        (*start_day).into(),
+    ));
+
+    let end_on_year = |year: i32| {
+        end_offset.apply(valid_ymd_before(
+            year,
+            (*end_month).into(),
+            (*end_day).into(),
+        ))
+    };
+
+    let end_date = match end_year {
+        Some(end_year) => end_on_year((*end_year).into()),
+        None => {
+            let candidate = end_on_year(start_year);
+
+            if start_date <= candidate {
+                candidate
+            } else {
+                end_on_year(start_year + 1)
+            }
+        }
+    };
+
+    Some((start_date, end_date))
+}
+
 impl DateFilter for ds::MonthdayRange {
     fn filter<L>(&self, date: NaiveDate, _ctx: &Context<L>) -> bool
     where
@@ -293,6 +349,12 @@ impl DateFilter for ds::MonthdayRange {
                 end: (end, end_offset),
             } => {
                 let year = date.year();
+
+                if let Some((start_date, end_date)) =
+                    interval_from_dated_start(&(*start, *start_offset), &(*end, *end_offset))
+                {
+                    return (start_date..=end_date).contains(&date);
+                }
 
                 if *start == Date::md(29, Month::February) && *end == Date::md(29, Month::February)
                 {
@@ -360,39 +422,17 @@ impl DateFilter for ds::MonthdayRange {
                 Some(next_change_from_bounds(date, [start], [end]))
             }
             ds::MonthdayRange::Date {
-                start:
-                    (
-                        ds::Date::Fixed {
-                            year: Some(start_year),
-                            month: start_month,
-                            day: start_day,
-                        },
-                        start_offset,
-                    ),
-                end:
-                    (ds::Date::Fixed { year: end_year, month: end_month, day: end_day }, end_offset),
+                start: start @ (ds::Date::Fixed { year: Some(_), .. }, _),
+                end: end @ (ds::Date::Fixed { .. }, _),
             } => {
-                let start = start_offset.apply(NaiveDate::from_ymd_opt(
-                    (*start_year).into(),
-                    *start_month as _,
-                    (*start_day).into(),
-                )?);
+                let (start_date, end_date) = interval_from_dated_start(start, end)?;
 
-                let end = {
-                    let candidate = end_offset.apply(NaiveDate::from_ymd_opt(
-                        end_year.unwrap_or_else(|| *start_year).into(),
-                        *end_month as _,
-                        (*end_day).into(),
-                    )?);
+                if end_date < start_date {
+                    // This interval is empty
+                    return Some(DATE_END.date());
+                }
 
-                    if start <= candidate {
-                        candidate
-                    } else {
-                        candidate.with_year(candidate.year() + 1)?
-                    }
-                };
-
-                Some(next_change_from_bounds(date, [start], [end]))
+                Some(next_change_from_bounds(date, [start_date], [end_date]))
             }
             ds::MonthdayRange::Date {
                 start: (start, start_offset),
